@@ -9,6 +9,9 @@ from rules.qsend import attach, g1
 NL = 10
 
 
+from rules import libtab
+
+
 class AddBounceHooks(QHooks):
     """addbounce() on a concrete small geometry: recipient "r\\n", a report of 3 bytes over {NL, x}"""
     tracked = frozenset(['G:bouncetext'])
@@ -411,11 +414,74 @@ def strip_sites(db, rep, prog):
 
 
 
+class ControlsHooks(libtab.SAConc, QHooks):
+    """qmail-send getcontrols() with every control file present and holding a recognisable value: what the bounce addresses are built from"""
+    FILES = {'control/envnoathost': b'env.example', 'control/bouncefrom': b'BOUNCER', 'control/bouncehost': b'bounces.example',
+             'control/doublebouncehost': b'hq.example', 'control/doublebounceto': b'mailadmin'}
+
+    def __init__(self):
+        self.ends = []
+
+    def tracked_global(self, path):
+        return True
+
+    def precise_arith(self, path):
+        return True
+
+    def prim_control_init(self, E, x, args):
+        return [Outcome(ret=fs(0))]
+
+    def prim_control_readint(self, E, x, args):
+        return [Outcome(ret=fs(1))]
+
+    def prim_control_rldef(self, E, x, args):
+        from qv.lib import lit_of
+        fnm = lit_of(E, x.args[1])
+        val = self.FILES.get(fnm)
+        if val is None:
+            return [Outcome(ret=fs(1))]
+        o = self._put(E, x, args, val, False)[0]
+        return [Outcome(ret=fs(1), sets=o.sets)]
+
+    prim_control_readline = prim_control_rldef
+
+    def prim_control_readfile(self, E, x, args):
+        o = self._put(E, x, args, b'x\0', False)[0]
+        return [Outcome(ret=fs(1), sets=o.sets)]
+
+    def prim_constmap_init(self, E, x, args):
+        return [Outcome(ret=fs(1))]
+
+    def on_return(self, E, fn, val):
+        if fn.name == 'getcontrols':
+            self.ends.append((libtab._one(val), {n: self.sa_bytes(E, 'G:' + n) for n in ('doublebounceto', 'bouncefrom', 'bouncehost', 'doublebouncehost')}, E.trace.list()))
+
+
+def controls_sites(db, rep):
+    prog = db.program('qmail-send')
+    gc = prog.fn('getcontrols', 'qmail-send.c')
+    H = ControlsHooks()
+    e = Engine(db, prog, H, max_states=60000)
+    e.run(gc, {})
+    rep.count_states(e.states, e.transitions)
+    if len(H.ends) != 1 or H.ends[0][0] != 1:
+        raise AnalysisBroken('getcontrols: %d ends (results %s) with every control file readable' % (len(H.ends), [e_[0] for e_ in H.ends]))
+    _, vals, tr = H.ends[0]
+    F = ControlsHooks.FILES
+    want = {'doublebounceto': F['control/doublebounceto'] + b'@' + F['control/doublebouncehost'] + b'\0', 'bouncefrom': F['control/bouncefrom'],
+            'bouncehost': F['control/bouncehost'], 'doublebouncehost': F['control/doublebouncehost']}
+    bad = {k: (vals.get(k), w) for k, w in want.items() if vals.get(k) != w}
+    return {'controls:double-bounce-address=doublebounceto@doublebouncehost': (not bad, 'qmail-send.c:getcontrols',
+            'with the control files %s the daemon starts with %s' % ({k.split('/')[1]: v.decode() for k, v in F.items()}, {k: (g, 'documented %r' % w) for k, (g, w) in bad.items()}) if bad else 'bouncefrom, bouncehost, doublebounceto@doublebouncehost', tr if bad else [])}
+
+
 def run(ctx):
     db, rep = ctx.db, ctx.report
     prog = db.program('qmail-send')
     ib = qsend.analyse_injectbounce(db, rep)
     r1 = rep.rule('C14.1-bounce-envelope-table', 'R-TABLE', 'injectbounce: ordinary sender -> ("", sender); empty sender -> ("#@[]", doublebounceto); sender #@[] -> nothing injected, record discarded; exactly one sender and one recipient record; -@[] stripped first')
+    for inst_, v_ in sorted(controls_sites(db, rep).items()):
+        r1.check(v_[0], inst_, v_[1], v_[2], v_[3])
     attach(r1, ib, only={'ib:no-injection-for-the-triple-bounce-sender', 'ib:exactly-one-sender-and-one-recipient'})
     f = prog.fn('injectbounce', 'qmail-send.c')
     SENDERS = ['', '#@[]', 'a@b', 'owner-@h-@[]', '-@[]', 'x-@[]', '#@[]x', 'a#@[]', '@[]']
@@ -492,6 +558,9 @@ def run(ctx):
     r4.expect_min(2)
 
     r3 = rep.rule('C14.3-one-paragraph-per-recipient', 'R-TABLE', 'addbounce: for every report over {newline, other}^3 and a recipient containing a newline the text is one paragraph: no newline in the recipient line, a blank line at the end and no text after the first blank line')
+    # every permanent failure reaches addbounce(): the report letter and delivery number decide (del_dochan explored; numbers up to 255)
+    from rules.qsend import attach as _attach
+    _attach(r3, qsend.analyse_del_dochan(db, rep), only={'del:bounce-only-for-D-(Z-when-expired)', 'del:bounce-recorded-before-DONE', 'del:delivery-numbers-128..255-are-acted-on'})
     fa = prog.fn('addbounce', 'qmail-send.c')
     n = 0
     sites = {}
